@@ -309,12 +309,23 @@ impl RuntimeData {
         debug!("• GC");
         // mark all roots for collection
         let mut progress_tracker = Vec::with_capacity(self.value_stack.len());
+        // objects held by a guard are roots too: they stay protected and keep their children alive
+        for object in self.object_list.iter_mut() {
+            unsafe {
+                let t = object.as_mut();
+                if matches!(t.marker, GcMarker::Protected) {
+                    progress_tracker.push(t);
+                }
+            }
+        }
         for val in self.value_stack.iter() {
             if let Value::Object(mut t) = val {
                 unsafe {
                     let t = t.as_mut();
-                    t.marker = GcMarker::Gray;
-                    progress_tracker.push(t);
+                    if matches!(t.marker, GcMarker::White) {
+                        t.marker = GcMarker::Gray;
+                        progress_tracker.push(t);
+                    }
                 }
             }
         }
@@ -323,8 +334,10 @@ impl RuntimeData {
             if let Value::Object(mut t) = val {
                 unsafe {
                     let t = t.as_mut();
-                    t.marker = GcMarker::Gray;
-                    progress_tracker.push(t);
+                    if matches!(t.marker, GcMarker::White) {
+                        t.marker = GcMarker::Gray;
+                        progress_tracker.push(t);
+                    }
                 }
             }
         }
